@@ -14,6 +14,14 @@ spec->code: every scenario class enumerated by TLC is instantiated (fault inject
             under several schedules (depth-first over all schedules for the
             smallest scenarios); the projection of the real outcome must be one of
             TLC's terminal states of the ideal design for that scenario.
+code->spec: the event log of every such run (queue put/get with the record ids
+            carried, process spawn/terminate/join/exit code, pool.map call/return,
+            task failure, observed terminal state) is validated by TLC against
+            spec/CreatePipelineTrace.tla - every step must be a CreatePipeline
+            action; corrupted copies must be rejected.
+faults    : in the reader through the input; in a pool worker / the writer process
+            (quantifier of C09) by making split_into_patches /
+            CatalogWriter.process_patches raise at the marked record (cfg.Where).
 oracle    : the clauses of C09 evaluated on the real outcome (exception / return
             value / exact deadlock detection, directory snapshot before/after,
             what Catalog(path) opens afterwards).
@@ -38,11 +46,11 @@ DEVIATIONS = {
 
 def base_consts(quick):
     return dict(MaxL=4 if quick else 5, MaxCS=3, Ws="{1, 2, 3}", Pres='{"absent", "old", "foreign", "file", "noparent"}',
-                Faults="{0, 1, 2}" if quick else "{0, 1, 2, 3}")
+                Faults="{0, 1, 2}" if quick else "{0, 1, 2, 3}", Wheres='{"reader", "worker", "writer"}')
 
 
 def cfg_key(c):
-    return (c["L"], c["CS"], c["W"], str(c["Pre"]), bool(c["Ow"]), c["FaultChunk"], bool(c["EmptyCentre"]))
+    return (c["L"], c["CS"], c["W"], str(c["Pre"]), bool(c["Ow"]), c["FaultChunk"], bool(c["EmptyCentre"]), str(c["Where"]))
 
 
 def model(ctx):
@@ -159,17 +167,23 @@ def run(ctx) -> None:
     # stratify: every (W-class, Pre, Ow, fault?, empty) class at least twice
     buckets = {}
     for k in keys:
-        L, CS, W, pre, ow, fc, ec = k
-        buckets.setdefault((min(W, 2), pre, ow, min(fc, 1), ec), []).append(k)
+        L, CS, W, pre, ow, fc, ec, wh = k
+        # chunk position of the fault: none / first / middle / last
+        nc = -(-L // CS)
+        pos = "none" if not fc else ("only" if nc == 1 else "first" if fc == 1 else "last" if fc == nc else "middle")
+        buckets.setdefault((min(W, 2), pre, ow, pos if wh != "reader" or pre == "absent" else min(fc, 1), ec, wh), []).append(k)
     per = 2 if quick else 8
     chosen = [k for b in buckets.values() for k in b[:per]]
     with scratch("c09_") as root:
         n = 0
+        traces, metas, tinfo = [], [], []
         for k in chosen:
-            L, CS, W, pre, ow, fc, ec = k
-            c = dict(L=L, CS=CS, W=W, Pre=pre, Ow=ow, FaultChunk=fc, EmptyCentre=ec)
+            L, CS, W, pre, ow, fc, ec, wh = k
+            c = dict(L=L, CS=CS, W=W, Pre=pre, Ow=ow, FaultChunk=fc, EmptyCentre=ec, Where=wh)
             variants = [("apply", None)]
-            if fc:
+            if fc and wh != "reader":
+                variants = [("apply", "injected_" + wh)] + ([("divide", "injected_" + wh)] if not ec else [])
+            elif fc:
                 variants = [("apply", rng.choice(FAULTS_APPLY)), ("divide", rng.choice(FAULTS_DIVIDE))]
                 if fc == 1:
                     variants.append(("apply", "missing_column"))
@@ -180,24 +194,29 @@ def run(ctx) -> None:
                 for s in range(nsched):
                     n += 1
                     res = pipeline.run_creation(yaw, root / f"r{n}", L=L, CS=CS, W=W, pre=pre, overwrite=ow, fault=fault,
-                                                fault_chunk=fc, empty_centre=ec, mode=mode, seed=rng.randrange(1 << 30))
+                                                fault_chunk=fc, empty_centre=ec, mode=mode, seed=rng.randrange(1 << 30), where=wh)
                     exp_new = pipeline.expected_records(pipeline.input_frame(L), ec)
                     proj = classify(yaw, c, res, exp_new)
                     ctx.evaluated(1, (k, mode, fault, s) if (fc or ec or pre != "absent" or W > 1) else None)
                     ctx.validated(1)
                     judge(ctx, c, fault, mode, res, proj, exp_new, allowed)
+                    if res["kind"] != "deadlock":
+                        traces.append(pipeline.trace_of(res, proj))
+                        metas.append(dict(cfg=c))
+                        tinfo.append(dict(scenario=c, mode=mode, fault=fault))
                     if len(ctx.samples) < 5 and (fc or pre != "absent"):
                         ctx.sample(dict(scenario=c, mode=mode, fault=fault, real_projection=proj, model_allows=sorted(allowed[k])))
+        trace_validation(ctx, traces, metas, tinfo)
         # depth-first over ALL schedules of the smallest multiprocessing scenarios
-        for (L, CS, W, fc) in [(2, 1, 2, 0), (2, 1, 2, 2), (3, 2, 2, 1)]:
-            c = dict(L=L, CS=CS, W=W, Pre="absent", Ow=False, FaultChunk=fc, EmptyCentre=False)
+        for (L, CS, W, fc, wh) in [(2, 1, 2, 0, "reader"), (2, 1, 2, 2, "reader"), (3, 2, 2, 1, "reader"), (2, 1, 2, 2, "worker"), (2, 1, 2, 1, "writer")]:
+            c = dict(L=L, CS=CS, W=W, Pre="absent", Ow=False, FaultChunk=fc, EmptyCentre=False, Where=wh)
             count = {"n": 0}
 
-            def once(ch, c=c, fc=fc):
+            def once(ch, c=c, fc=fc, wh=wh):
                 count["n"] += 1
-                fault = "nan_z" if fc else None
-                res = pipeline.run_creation(yaw, root / f"dfs{L}{CS}{fc}_{count['n']}", L=c["L"], CS=c["CS"], W=c["W"], fault=fault,
-                                            fault_chunk=fc, chooser=ch)
+                fault = ("nan_z" if wh == "reader" else "injected_" + wh) if fc else None
+                res = pipeline.run_creation(yaw, root / f"dfs{L}{CS}{fc}{wh}_{count['n']}", L=c["L"], CS=c["CS"], W=c["W"], fault=fault,
+                                            fault_chunk=fc, chooser=ch, where=wh)
                 proj = classify(yaw, c, res, pipeline.expected_records(pipeline.input_frame(c["L"])))
                 judge(ctx, c, fault, "apply", res, proj, pipeline.expected_records(pipeline.input_frame(c["L"])), allowed)
                 return proj
@@ -206,11 +225,53 @@ def run(ctx) -> None:
             nrun = 0
             for proj, _ in detrt.dfs_schedules(once, max_runs=limit):
                 nrun += 1
-                ctx.evaluated(1, ("dfs", L, CS, W, fc, nrun))
+                ctx.evaluated(1, ("dfs", L, CS, W, fc, wh, nrun))
                 ctx.validated(1)
-            ctx.extra.setdefault("dfs_schedules", []).append(dict(L=L, CS=CS, W=W, fault_chunk=fc, schedules=nrun, exhausted=nrun < limit))
+            ctx.extra.setdefault("dfs_schedules", []).append(dict(L=L, CS=CS, W=W, fault_chunk=fc, where=wh, schedules=nrun, exhausted=nrun < limit))
         # faults that strike before the pipeline starts
         pre_pipeline(ctx, yaw, root)
+
+
+def trace_validation(ctx, traces, metas, tinfo):
+    """code -> spec: the event logs of the runs above (every queue put/get with the
+    record ids it carried, process start/terminate/join/exit codes, pool.map calls,
+    task failures, and the observed terminal state) must be behaviours of the ideal
+    CreatePipeline design - every step, not only the outcome."""
+    if not traces:
+        return
+    consts = dict(base_consts(ctx.quick), Deviations="{}")
+    # binding demonstration: corrupted copies of a multi-worker trace must be rejected
+    donor = next((i for i, t in enumerate(traces) if sum(bool(e["ev"] == "put" and e.get("recs")) for e in t) >= 2), None)
+    ctx.require(donor is not None, "no multi-worker trace with two non-empty puts recorded")
+    bad1 = [dict(e) for e in traces[donor]]
+    for e in bad1:                      # a record silently dropped from a part
+        if e["ev"] == "put" and e.get("recs"):
+            e["recs"] = e["recs"][1:]
+            break
+    bad2 = [dict(e) for e in traces[donor]]
+    for i, e in enumerate(bad2):        # the writer never takes one item off the queue
+        if e["ev"] == "get" and e.get("recs"):
+            del bad2[i]
+            break
+    bad3 = [dict(e) for e in traces[donor]]
+    bad3[-1] = dict(bad3[-1], outcome="success" if bad3[-1]["outcome"] == "raised" else "raised")
+    allt = traces + [bad1, bad2, bad3]
+    allm = metas + [metas[donor]] * 3
+    from harness import tracecheck
+
+    res, verdicts = tracecheck.validate("CreatePipelineTrace", consts, allt, invariants=INVS, extra_fields=pipeline.TRACE_FIELDS, metas=allm)
+    ctx.add_tlc("CreatePipelineTrace (event logs of the real creations)", res, traces=len(traces))
+    ctx.require(not any(ok for _, ok in verdicts[-3:]), "binding demonstration failed: a corrupted creation trace was accepted")
+    nacc = 0
+    for (m, ok), tr, info in zip(verdicts, traces, tinfo):
+        if ok:
+            nacc += 1
+        else:
+            ctx.drift("C09|creation_event_log_not_a_CreatePipeline_behaviour",
+                      dict(info, matched=m, of=len(tr), next_event={k: v for k, v in (tr[m] if m < len(tr) else {}).items() if k not in ("p", "seq")}))
+    ctx.validated(len(traces))
+    ctx.extra["trace_validation"] = dict(traces=len(traces), accepted=nacc, events=sum(len(t) for t in traces),
+                                         corrupted_traces_rejected=3)
 
 
 def pre_pipeline(ctx, yaw, root):
